@@ -61,7 +61,7 @@ def oracle(case):
 
 
 def check(rep, tier, seed):
-    n = 36 if tier == "quick" else 900
+    n = 36 if tier == "quick" else 6000
     cases = [gen_case(seed, i, ENGINES[i % 3]) for i in range(n)]
     core.run_cases(cases)
     for c in cases:
